@@ -2235,7 +2235,8 @@ impl<'store> AnnotationStore {
                         self.remove(resource)?;
                     }
                     for annotation in remove_annotations {
-                        self.remove(annotation)?;
+                        //an annotation that depends on an earlier one in this list is already gone with it
+                        self.remove_annotation_if_exists(annotation)?;
                     }
                     for (set, key) in remove_keys {
                         self.remove_key(set, key, true)?;
